@@ -114,8 +114,10 @@ IncrOut(a, d, n) ==
     THEN {[Mut(Live(NumBody(a.def), TRUE, n, a.exp, NoXa, NextRev(d))) EXCEPT !.num = a.def, !.rcas = "any"]}
     ELSE IF d.body.k # "num" THEN Unch(d, {"other"})
     ELSE LET v == d.body.n + a.amt
-             m == [Mut(Live(NumBody(v), TRUE, n, a.exp, d.xa, d.rev + 1)) EXCEPT !.num = v, !.rcas = "any"] IN
-         IF a.amt = 0 THEN {m, [Out(TRUE, {"ok"}, d, FALSE) EXCEPT !.num = v]} ELSE {m}
+             \* whether incrementing an existing counter applies the expiry argument or keeps the expiry is not stated
+             m(e) == [Mut(Live(NumBody(v), TRUE, n, e, d.xa, d.rev + 1)) EXCEPT !.num = v, !.rcas = "any"]
+             ms == {m(a.exp), m(d.exp)} IN
+         IF a.amt = 0 THEN ms \cup {[Out(TRUE, {"ok"}, d, FALSE) EXCEPT !.num = v]} ELSE ms
 
 TouchOut(a, d, n) ==
     IF ~HasBody(d) THEN Unch(d, {"missing"})
@@ -337,7 +339,8 @@ Outcomes(op, a, d, n) ==
     CASE op = "Set"      -> SetOut(a, d, n, TRUE)
       [] op = "SetRaw"   -> SetOut(a, d, n, FALSE)
       [] op = "Add"      -> AddOut(a, d, n, TRUE)
-      [] op = "AddRaw"   -> AddOut(a, d, n, a.body.k = "obj")
+      [] op = "AddRaw"   -> \* whether raw bytes that look like a JSON object are flagged JSON is not stated: both are allowed
+                            IF a.body.k = "obj" THEN AddOut(a, d, n, TRUE) \cup AddOut(a, d, n, FALSE) ELSE AddOut(a, d, n, FALSE)
       [] op = "Incr"     -> IncrOut(a, d, n)
       [] op = "Touch"    -> TouchOut(a, d, n)
       [] op = "GetAndTouchRaw" -> TouchOut(a, d, n)
